@@ -5,6 +5,7 @@ import (
 	"encoding/json"
 	"fmt"
 	"os"
+	"os/exec"
 	"path/filepath"
 	"sort"
 	"strings"
@@ -23,6 +24,12 @@ type RealCase struct {
 	History ggen.History `json:"history"`
 	// NoCLI leaves out the `coca git` entry point (feature switch cli_git_log_invocation of a known finding)
 	NoCLI bool `json:"no_cli,omitempty"`
+	// Mailmap: lines of a .mailmap file put into the work tree before `coca git` runs (%aN prints the mapped names)
+	Mailmap []MailMap `json:"mailmap,omitempty"`
+	// Args: further options of `coca git` (summaries printed to stdout; commits.json is written whatever they say)
+	Args []string `json:"args,omitempty"`
+	// Subdir: `coca git` runs in the first directory of the checked-out tree instead of the top level
+	Subdir bool `json:"subdir,omitempty"`
 }
 
 // EmuCase: the log text comes from the format emulator; Hashes are the abbreviated hashes
@@ -83,11 +90,24 @@ func genHashes(t *rapid.T, n int) []string {
 }
 
 func genReal(t *rapid.T) RealCase {
-	return RealCase{History: ggen.Gen(t, options()), NoCLI: pbt.Excluded("cli_git_log_invocation")}
+	c := RealCase{History: genHistory(t, options(), true), NoCLI: pbt.Excluded("cli_git_log_invocation")}
+	if c.NoCLI || !decorationsAllowed() {
+		return c
+	}
+	if rapid.IntRange(0, 3).Draw(t, "mailmap") == 3 {
+		c.Mailmap = genMailmap(t, c.History)
+	}
+	if rapid.IntRange(0, 3).Draw(t, "cliFlags") == 3 {
+		for i, n := 0, rapid.IntRange(1, 2).Draw(t, "nFlags"); i < n; i++ {
+			c.Args = append(c.Args, rapid.SampledFrom(cliFlags).Draw(t, "flag")...)
+		}
+	}
+	c.Subdir = rapid.IntRange(0, 4).Draw(t, "subdir") == 4
+	return c
 }
 
 func genEmu(t *rapid.T) EmuCase {
-	h := ggen.Gen(t, options())
+	h := genHistory(t, options(), false)
 	sim, err := ggen.Simulate(h)
 	if err != nil {
 		panic("c14: generated history does not simulate: " + err.Error())
@@ -106,7 +126,7 @@ func genSeq(t *rapid.T) SeqCase {
 	one := func() EmuCase {
 		o := options()
 		o.MaxCommits = 6
-		h := ggen.Gen(t, o)
+		h := genHistory(t, o, false)
 		sim, err := ggen.Simulate(h)
 		if err != nil {
 			panic("c14: generated history does not simulate: " + err.Error())
@@ -203,7 +223,7 @@ func compare(got []git.CommitMessage, exp []ggen.Expected) string {
 
 func classify(h ggen.History, sim *ggen.Sim, exp []ggen.Expected) pbt.Verdict {
 	features := ggen.Features(sim)
-	v := pbt.Verdict{Classes: features}
+	v := pbt.Verdict{Classes: append(append([]string{}, features...), shapeClasses(h, sim, exp)...)}
 	if len(exp) >= 2 {
 		v.Classes = append(v.Classes, "commits_with_changes>=2")
 	}
@@ -223,8 +243,27 @@ func parse(text string) ([]git.CommitMessage, string) {
 	return got, p
 }
 
-func checkCLI(repo *ggen.Repo, exp []ggen.Expected) pbt.Verdict {
-	res, err := cli.Run("coca", repo.Dir, ggen.HermeticEnv(repo.Home), "git")
+// gitLog runs the log invocation of cmd/git.go in dir, the way `coca git` started there does.
+func gitLog(repo *ggen.Repo, dir string) string {
+	cmd := exec.Command("git", ggen.LogArgs...)
+	cmd.Dir = dir
+	cmd.Env = append(os.Environ(), ggen.HermeticEnv(repo.Home)...)
+	out, err := cmd.Output()
+	if err != nil {
+		ggen.HarnessFatal("git log in %s: %v", dir, err)
+	}
+	return string(out)
+}
+
+// checkCLI runs `coca git` with args in directory sub of the work tree ("" = the top level); logText is what
+// the log invocation of cmd/git.go prints there.
+func checkCLI(repo *ggen.Repo, sub string, args []string, exp []ggen.Expected, logText string) pbt.Verdict {
+	cwd := filepath.Join(repo.Dir, filepath.FromSlash(sub))
+	call := "`coca " + strings.Join(append([]string{"git"}, args...), " ") + "`"
+	if sub != "" {
+		call += fmt.Sprintf(" (started in directory %q of the work tree)", sub)
+	}
+	res, err := cli.Run("coca", cwd, ggen.HermeticEnv(repo.Home), append([]string{"git"}, args...)...)
 	if err != nil {
 		ggen.HarnessFatal("cannot run coca: %v", err)
 	}
@@ -232,18 +271,18 @@ func checkCLI(repo *ggen.Repo, exp []ggen.Expected) pbt.Verdict {
 		return pbt.Verdict{Skip: true}
 	}
 	if res.ExitCode != 0 {
-		return pbt.Fail("`coca git` exited with status %d in a valid repository\nstdout: %s\nstderr: %s\ngit log:\n%s", res.ExitCode, res.Stdout, res.Stderr, repo.LogOut)
+		return pbt.Fail("%s exited with status %d in a valid repository\nstdout: %s\nstderr: %s\ngit log:\n%s", call, res.ExitCode, res.Stdout, res.Stderr, logText)
 	}
-	data, err := os.ReadFile(filepath.Join(repo.Dir, "coca_reporter", "commits.json"))
+	data, err := os.ReadFile(filepath.Join(cwd, "coca_reporter", "commits.json"))
 	if err != nil {
-		return pbt.Fail("`coca git` wrote no coca_reporter/commits.json: %v\nstdout: %s\nstderr: %s", err, res.Stdout, res.Stderr)
+		return pbt.Fail("%s wrote no coca_reporter/commits.json: %v\nstdout: %s\nstderr: %s", call, strings.ReplaceAll(err.Error(), repo.Dir, "<repo>"), res.Stdout, res.Stderr)
 	}
 	var fromCli []git.CommitMessage
 	if err := json.Unmarshal(data, &fromCli); err != nil {
 		return pbt.Fail("coca_reporter/commits.json is not a JSON list of commits: %v\n%s", err, data)
 	}
 	if msg := compare(fromCli, exp); msg != "" {
-		return pbt.Fail("`coca git` (commits.json): %s\n-- parsed --\n%s-- git log --pretty=format:'[%%h] %%aN %%ad %%s' --date=short --numstat --reverse --summary --\n%s", msg, describe(fromCli), repo.LogOut)
+		return pbt.Fail("%s (commits.json): %s\n-- parsed --\n%s-- git log --pretty=format:'[%%h] %%aN %%ad %%s' --date=short --numstat --reverse --summary --\n%s", call, msg, describe(fromCli), logText)
 	}
 	return pbt.Verdict{}
 }
@@ -264,23 +303,69 @@ func checkReal(c RealCase) pbt.Verdict {
 	}
 	pbt.Count("emulator_validated_against_git", 1)
 	exp := ggen.Expect(sim, repo.Hashes)
+	logText := repo.LogOut
+	var extra []string
+
+	// a .mailmap file in the work tree: %aN prints the mapped names, and those are the names git prints
+	if len(c.Mailmap) > 0 {
+		if err := os.WriteFile(filepath.Join(repo.Dir, ".mailmap"), []byte(mailmapText(c.Mailmap)), 0644); err != nil {
+			ggen.HarnessFatal("cannot write .mailmap: %v", err)
+		}
+		mapped, err := ggen.Simulate(applyMailmap(c.History, c.Mailmap))
+		if err != nil {
+			ggen.HarnessFatal("case does not simulate: %v", err)
+		}
+		logText = gitLog(repo, repo.Dir)
+		if emu := ggen.Emulate(mapped, repo.Hashes); emu != logText {
+			ggen.HarnessFatal("format emulator disagrees with git log under the mailmap\n%s--- git log ---\n%s\n--- emulator ---\n%s\n--- end ---", mailmapText(c.Mailmap), logText, emu)
+		}
+		pbt.Count("mailmap_validated_against_git", 1)
+		exp = ggen.Expect(mapped, repo.Hashes)
+		extra = append(extra, "mailmap_in_work_tree")
+		if c.Mailmap[0].From == "" {
+			extra = append(extra, "mailmap_line_with_address_only")
+		}
+		if logText != repo.LogOut {
+			extra = append(extra, "mailmap_changes_a_printed_author")
+		}
+	}
+	sub := ""
+	if c.Subdir {
+		for _, p := range sim.HeadTree().Paths() {
+			if i := strings.Index(p, "/"); i > 0 {
+				sub = p[:i]
+				break
+			}
+		}
+		if sub != "" {
+			if there := gitLog(repo, filepath.Join(repo.Dir, filepath.FromSlash(sub))); there != logText {
+				ggen.HarnessFatal("git log prints something else in directory %q:\n%s\n--- at the top level ---\n%s", sub, there, logText)
+			}
+			extra = append(extra, "coca_git_started_in_a_subdirectory")
+		}
+	}
+	if len(c.Args) > 0 {
+		extra = append(extra, "coca_git_with_further_options")
+	}
 
 	// entry point 1: the CLI, exactly as a user runs it
 	if !c.NoCLI {
-		if v := checkCLI(repo, exp); v.Violation != "" || v.Skip {
+		if v := checkCLI(repo, sub, c.Args, exp, logText); v.Violation != "" || v.Skip {
 			return v
 		}
 	}
 
 	// entry point 2: the parser on the output of real git
-	got, p := parse(repo.LogOut)
+	got, p := parse(logText)
 	if p != "" {
-		return pbt.Fail("BuildMessageByInput panicked on real git output: %s\n-- git log --\n%s", p, repo.LogOut)
+		return pbt.Fail("BuildMessageByInput panicked on real git output: %s\n-- git log --\n%s", p, logText)
 	}
 	if msg := compare(got, exp); msg != "" {
-		return pbt.Fail("BuildMessageByInput(real git log): %s\n-- parsed --\n%s-- git log --\n%s", msg, describe(got), repo.LogOut)
+		return pbt.Fail("BuildMessageByInput(real git log): %s\n-- parsed --\n%s-- git log --\n%s", msg, describe(got), logText)
 	}
-	return classify(c.History, sim, exp)
+	v := classify(c.History, sim, exp)
+	v.Classes = append(v.Classes, extra...)
+	return v
 }
 
 // confirm rebuilds the history of a failing emulated case with real git and compares the
@@ -395,9 +480,11 @@ func checkSeq(c SeqCase) pbt.Verdict {
 
 func init() {
 	pbt.SetProperty("C14")
-	pbt.Describe("rapid-generated operation lists: 1-12 commits by 1-6 authors (names with spaces, digits, non-ASCII, inner punctuation such as dependabot[bot] or Jean-Luc O'Neil), up to 5 live files per branch plus, now and then, an import of 9-24 files in one commit; per commit 1-5 operations (add text/binary file, plain or executable, of 1-12 or of 100-1400 lines, modify = drop/insert lines and/or flip the executable bit, delete, rename: other name / other directory / to the root / one directory up / down / first or inner directory component replaced / directory put in front, unchanged, lightly edited or rewritten so that git shows delete+create); paths with blanks (also at the beginning of a component or of the whole path; since seed C14-r4 also at the END of a component or of the whole path, one or two of them: `notes `, `old /keep `, `g.txt  `, at both ends: ` x `, file names of one or two blanks and directory names of three blanks: ` `, `  `, `a/   /f.txt`, runs of two blanks inside a component: `two  blanks.md`, `d  ir`, and twins = a new path that differs from a path of the tree, possibly one touched by the same commit, only by blanks appended to one of its components: `f.txt` next to `f.txt `, `a/b/f.txt` next to `a /b/f.txt`; such names are also rename sources and targets and replaced directory components), nested directories, number-then-blank components, names that are a prefix or a suffix of another name (f.txt / f.txt.orig / xf.txt), re-creation of deleted paths; empty commits, a side branch that ends in a merge commit (clean by construction), in a squash commit (one parent, the side branch's net change as its diff, as after `git merge --squash`; the side commits stay unreachable) or is left unmerged; subjects from a token grammar (words, conventional prefixes with/without scope, [text], [hex], bare hex words, ->, =>, other dates, the commit's own date, the author's name, colons, quotes, non-ASCII) and, on commits of every kind (ordinary, empty, squash, side branch, first, last, true merge), the subjects git and the hosting services write: Merge branch 'b' [of url] [into c], Merge branches 'b' and 'c', Merge tag 't', Merge commit '<hex>', Merge pull request #n from user/b, Merge remote-tracking branch 'origin/b', Merge <hex> into <hex>, Merged in b (pull request #n), Merged PR n: text, and Revert \"s\", Reapply \"s\", Revert \"Revert \"s\"\", fixup! / squash! / amend! s, Squashed commit of the following:, Initial commit, WIP on b: <hex> s, index on b: <hex> s, Bump pkg from 1.2.3 to 1.2.4, Create / Update / Delete / Rename <file>, Release v1.2.3, s (#n), Cherry-pick <hex>: s, where s is the subject of an earlier commit of the history or plain words (a true merge otherwise carries Merge branch 'side' or a grammar subject; the subject never decides whether a commit is a merge: its parents do); now and then a commit of any kind has no message at all (git commit --allow-empty-message: %s is empty, the commit line ends with the blank after the date); author dates in four time zones. The operation list is simulated (file trees with globally unique lines, tree diff, git's rename pairing and similarity estimate, git's rename notation) which yields both the expected commit list and the emulated log text. 'cli' cases build the repository with real git (git commit with GIT_AUTHOR_*/GIT_COMMITTER_* fixed), validate simulation and emulator against it (git diff-tree --numstat -M per commit, rev-list, ls-tree, git log byte for byte), run the built `coca git` inside it and read coca_reporter/commits.json, and feed the real log text to BuildMessageByInput; 'emu' cases feed emulated log text to BuildMessageByInput, with abbreviated hashes of 7-16 or of 40 digits; 'seq' cases parse the emulated logs of two histories (which now and then carry the same hashes) as A, B, A in one process without the reset hook in between: every call must give its own log's commits, and a list handed out by an earlier call must still read the same after later calls. Expected: in log order one entry per reachable non-merge commit with at least one changed path, with hash, author, date, subject as printed, and the multiset of (path as printed by numstat, added, deleted, create/delete/\"\" mode), binary = 0/0. Non-trivial = at least 2 commits with changes and at least one of: rename, delete, binary file, path with a blank, subject with a special token (a merge-like or other tool-written subject on a non-merge commit counts as one); distinct = hash of the operation list.",
-		"paths consist of letters, digits, '.', '_', '-' and blanks (U+0020, anywhere in a component, also as its only characters) and nothing git would C-quote (no tab, CR or other control character, no non-ASCII white space); files are regular files with mode 100644 or 100755 (no symlinks, no submodules); a rename never changes the mode",
-		"author names contain no date-shaped token; punctuation (- ' . [ ] ( ) @) only inside the name, where git keeps it; subjects are single-line, without leading/trailing blanks or tabs (git strips them from %s), either empty or beginning with a non-blank",
+	pbt.Describe("rapid-generated operation lists: 1-12 commits by 1-6 authors (names with spaces, digits, non-ASCII, inner punctuation such as dependabot[bot] or Jean-Luc O'Neil), up to 5 live files per branch plus, now and then, an import of 9-24 files in one commit; per commit 1-5 operations (add text/binary file, plain or executable, of 1-12 or of 100-1400 lines, modify = drop/insert lines and/or flip the executable bit, delete, rename: other name / other directory / to the root / one directory up / down / first or inner directory component replaced / directory put in front, unchanged, lightly edited or rewritten so that git shows delete+create); paths with blanks (also at the beginning of a component or of the whole path; since seed C14-r4 also at the END of a component or of the whole path, one or two of them: `notes `, `old /keep `, `g.txt  `, at both ends: ` x `, file names of one or two blanks and directory names of three blanks: ` `, `  `, `a/   /f.txt`, runs of two blanks inside a component: `two  blanks.md`, `d  ir`, and twins = a new path that differs from a path of the tree, possibly one touched by the same commit, only by blanks appended to one of its components: `f.txt` next to `f.txt `, `a/b/f.txt` next to `a /b/f.txt`; such names are also rename sources and targets and replaced directory components), nested directories, number-then-blank components, names that are a prefix or a suffix of another name (f.txt / f.txt.orig / xf.txt), re-creation of deleted paths; empty commits, a side branch that ends in a merge commit (clean by construction), in a squash commit (one parent, the side branch's net change as its diff, as after `git merge --squash`; the side commits stay unreachable) or is left unmerged; subjects from a token grammar (words, conventional prefixes with/without scope, [text], [hex], bare hex words, ->, =>, other dates, the commit's own date, the author's name, colons, quotes, non-ASCII) and, on commits of every kind (ordinary, empty, squash, side branch, first, last, true merge), the subjects git and the hosting services write: Merge branch 'b' [of url] [into c], Merge branches 'b' and 'c', Merge tag 't', Merge commit '<hex>', Merge pull request #n from user/b, Merge remote-tracking branch 'origin/b', Merge <hex> into <hex>, Merged in b (pull request #n), Merged PR n: text, and Revert \"s\", Reapply \"s\", Revert \"Revert \"s\"\", fixup! / squash! / amend! s, Squashed commit of the following:, Initial commit, WIP on b: <hex> s, index on b: <hex> s, Bump pkg from 1.2.3 to 1.2.4, Create / Update / Delete / Rename <file>, Release v1.2.3, s (#n), Cherry-pick <hex>: s, where s is the subject of an earlier commit of the history or plain words (a true merge otherwise carries Merge branch 'side' or a grammar subject; the subject never decides whether a commit is a merge: its parents do); now and then a commit of any kind has no message at all (git commit --allow-empty-message: %s is empty, the commit line ends with the blank after the date); author dates in four time zones. The operation list is simulated (file trees with globally unique lines, tree diff, git's rename pairing and similarity estimate, git's rename notation) which yields both the expected commit list and the emulated log text. 'cli' cases build the repository with real git (git commit with GIT_AUTHOR_*/GIT_COMMITTER_* fixed), validate simulation and emulator against it (git diff-tree --numstat -M per commit, rev-list, ls-tree, git log byte for byte), run the built `coca git` inside it and read coca_reporter/commits.json, and feed the real log text to BuildMessageByInput; 'emu' cases feed emulated log text to BuildMessageByInput, with abbreviated hashes of 7-16 or of 40 digits; 'seq' cases parse the emulated logs of two histories (which now and then carry the same hashes) as A, B, A in one process without the reset hook in between: every call must give its own log's commits, and a list handed out by an earlier call must still read the same after later calls. Expected: in log order one entry per reachable non-merge commit with at least one changed path, with hash, author, date, subject as printed, and the multiset of (path as printed by numstat, added, deleted, create/delete/\"\" mode), binary = 0/0. Non-trivial = at least 2 commits with changes and at least one of: rename, delete, binary file, path with a blank, subject with a special token (a merge-like or other tool-written subject on a non-merge commit counts as one); distinct = hash of the operation list. "+
+		"CHECKLIST AUDIT, on top of the above (the drawn operation list is re-spelled consistently afterwards, each family behind its own draw): (a) ~30 % of the cases: 1-3 path components are re-spelled wherever they occur, as directory or as file name, as text that resembles the log's own syntax (`a => b`, `{a => b}`, `{ => x}`, `=>`, `{`, `}`, `f (100%)`, `g (50%)`, `(87%)`, `mode 100644 f`, `create mode 100644 f.txt`, `delete mode 100755 x`, `rename a => b (100%)`, `mode change 100644 => 100755 m`, `create`, `mode`, `[abc1234] Ann Lee 2015-01-04 add`, `[deadbeef]`, `2015-01-04`, `- - bin`, `12`, `0`, `-`, `--`, `-1`), as other printable ASCII punctuation git prints unquoted ($ _ # @ + , ; ' & ! ~ % = : ( ) [ ] < > ^ * ? | and the back quote), as one-letter and dot names (`q`, `...`, `x.`, `.hidden`, `-rf`), as case variants / one character shorter or longer variants of pool names or of another component of the same history (`F.TXT` next to `f.txt`, `sub2`, `su`, `f.txt~`, `f.txt (100%)`, `{f.txt => f.txt}`), as one component of 247 bytes, or as 14 nested directory levels; (b) ~20 %: one or two authors get another name in all their commits: one character (`M`, `x`, a CJK letter), a run of two blanks / a tab / a no-break space inside, a bracketed hex word in front (`[abc1234] Bob`, `[bot]`), almost-dates (`v 2020-01`, `x 2020-1-15`, `Ann 2020-01-1 Lee`, `z 2020/01/15`, `Bob 2020`), case variants and extensions of another author of the history (`ann lee`, `Ann Lee Jr`), words of the log syntax (`create mode`, `mode 100644 x`, `1 2 f`, `100%`), 316 bytes; (c) ~20 %: tokens appended to one or two subjects (or taken as the subject of a commit without message): tab-separated numstat look-alikes (`1<TAB>2<TAB>f.txt`, `-<TAB>-<TAB>data.bin`), summary-line look-alikes (`create mode 100644 f.txt`, `rename a => b (100%)`, `mode change 100644 => 100755 x`), a commit-line look-alike, CR / FF / VT inside a word, and subjects that END with white space git does not strip (no-break space, U+3000, U+0085, U+2028, FF, VT; git strips blank, tab, CR, LF only); (d) ~2.5 %: one subject of 4097-9100 bytes, ~1 %: of 65537-70600 bytes (one log line longer than 64 KiB); (e) ~20 %: the renames of the history also flip the executable bit (git then prints ` mode change 100644 => 100755` WITHOUT a path after the rename line); (f) ~3 %: one commit imports 26-70 further files (31/32/33 and 63/64/65 on purpose), ~1.7 %: the last ordinary commit adds a text file of 10000-13000 or of 100000 lines (numstat figures of five and six digits), ~3 % of the emulated logs have up to 100 commits; (g) 'cli' only: in half of the cases a third of the commits carry a message body (`git commit -m subject -m body`; paragraphs that look like numstat, summary or commit lines, trailers; %s prints none of it), ~7 % of the histories are padded with 20-60 further one-file commits (logs of more than 16, 32, 64 commits by construction), ~25 % have a .mailmap file in the work tree (one or two lines `To <mapped@example.org> From <author@example.org>`, To also another author of the history, or one line with the address only, which maps every generated author): the expected author is then the name %aN prints, and the real `git log` under that mailmap is compared byte for byte with the emulator fed the mapped names before anything is judged; ~25 % give `coca git` further options that only print summaries (-b -t -a -o -m -f -s N, long and joined spellings), ~20 % start `coca git` in the first directory of the work tree instead of the top level (coca_reporter is then read there; git log prints the same text there, which is checked).",
+		"paths consist of printable ASCII characters (blanks anywhere in a component, also as its only characters) except the double quote and the backslash: those, control characters and bytes above 0x7e make git print the path C-quoted, and the statement leaves open whether the quoted or the unquoted spelling is 'the path'; no component is `.git*`, `.mailmap` or `coca_reporter`; files are regular files with mode 100644 or 100755 (no symlinks, no submodules: the quantifier lists neither)",
+		"author names contain no date-shaped text (\\d{4}-\\d{2}-\\d{2} anywhere inside: the commit line could then be read in two ways); no < > or line break and none of . , : ; \" ' \\ or white space at the ends (git removes those); subjects are one paragraph of one line, without blank, tab, CR or LF at the ends (git strips them from %s), either empty or beginning with a character other than blank and tab; tab, CR, FF, VT inside and any other white space anywhere are kept by git and generated; a message body is a separate paragraph and exists only next to a non-empty subject",
+		"a .mailmap line names the address all generated authors share; names in it compare without regard to ASCII case, as in git; the repository configuration is git's default apart from the harness settings (no core.abbrev, core.quotepath, log.* or color settings)",
 		"every pairing of a deleted with an added file is unambiguous by construction (all lines globally unique, added files never empty), so git's rename detection has exactly one possible result, which the simulation reproduces with git's span-hash similarity estimate; this is checked against real git in every 'cli' case, in a start-up self-test, and for every failing 'emu' case before it is reported",
 		"committer dates increase with the commit index, so the log order is the creation order of the reachable commits",
 		"`coca git` and all harness git calls run with HOME pointing to an empty directory and system/global git configuration disabled")
